@@ -239,18 +239,18 @@ theorem ierase_empty (t : ITier Int) (hwf : t.WF) (he : t.es = []) (a b : Int) (
   | false => rfl
   | true =>
     obtain ⟨e1, e2⟩ := clip_true lo hi a b
-    simp only [e1, e2, true_and]
+    simp only [e1, e2, true_and, List.filter_nil, eraseCore, List.head?_nil, bind, Except.bind, pure, Except.pure]
     split
-    · rename_i hc
-      have : C12.clipLen lo hi a b = 0 := by simp only [C12.clipLen]; omega
-      simp [this]
     · rename_i hc
       have : hi - C12.clipLen lo hi a b = shiftBack (max a lo) (min b hi) hi := by
         simp only [C12.clipLen, shiftBack]; omega
-      simp only [List.filter_nil, eraseCore, List.head?_nil, bind, Except.bind, pure, Except.pure, if_true, shrinkStep,
-        ITier.new, Option.getD_some, Option.getD_none, shrinkIvs, List.filterMap_nil, rejoin, this]
+      simp only [if_true, shrinkStep, ITier.new, Option.getD_some, Option.getD_none, shrinkIvs, List.filterMap_nil,
+        rejoin, this]
       rw [mkITier_of_wf n [] lo _ (by intro _ h; cases h) List.Pairwise.nil (by intro _ h; cases h)]
       rfl
+    · rename_i hc
+      have : C12.clipLen lo hi a b = 0 := by simp only [C12.clipLen]; omega
+      simp [this]
 
 /-- a point tier without entries, ANY region -/
 theorem perase_empty (t : PTier Int) (hwf : t.WF) (he : t.ps = []) (a b : Int) (hab : a < b) (sh : Bool) :
@@ -267,11 +267,11 @@ theorem perase_empty (t : PTier Int) (hwf : t.WF) (he : t.ps = []) (a b : Int) (
     simp only
     split
     · rename_i hc
-      have : C12.clipLen lo hi a b = 0 := by simp only [C12.clipLen]; omega
-      simp [this]
-    · rename_i hc
       have : C12.clipLen lo hi a b = min b hi - max a lo := by simp only [C12.clipLen]; omega
       simp [this, pshrink]
+    · rename_i hc
+      have : C12.clipLen lo hi a b = 0 := by simp only [C12.clipLen]; omega
+      simp [this]
 
 /-- what `eraseRegion` makes of a tier without entries (either class) -/
 def emptyErased (a b : Int) (sh : Bool) : AnyTier Int → AnyTier Int
@@ -343,11 +343,11 @@ theorem tg_erase_outside_regression :
   refine ⟨exG2_wf, exG2_valid, ?_⟩
   have h1 : (AnyTier.P C12.exMarks).eraseRegion 6 15 .truncate true = .ok (.P ⟨"marks", [⟨3, "p"⟩], 0, 6⟩) := by
     simp only [AnyTier.eraseRegion]
-    rw [perase_shrink_any C12.exMarks C12.exMarks_wf 6 15 (by decide), if_neg (by decide)]
+    rw [perase_shrink_any C12.exMarks C12.exMarks_wf 6 15 (by decide), if_pos (by decide)]
     rfl
   have h2 : (AnyTier.P exNone).eraseRegion 6 15 .truncate true = .ok (.P ⟨"none", [], 0, 6⟩) := by
     simp only [AnyTier.eraseRegion]
-    rw [perase_shrink_any exNone exNone_wf 6 15 (by decide), if_neg (by decide)]
+    rw [perase_shrink_any exNone exNone_wf 6 15 (by decide), if_pos (by decide)]
     rfl
   have hm : exG2.tiers.mapM (·.eraseRegion 6 15 .truncate true) =
       .ok [.P ⟨"marks", [⟨3, "p"⟩], 0, 6⟩, .P ⟨"none", [], 0, 6⟩] := by
